@@ -161,6 +161,17 @@ func (fc *FuncCtx) computeRoots() {
 	for _, b := range fc.Fn.Blocks {
 		for _, in := range b.Instrs {
 			if al, ok := in.(*ssa.Alloc); ok {
+				// the spill slot of a parameter (address taken, or captured by a function literal) is the parameter
+				if sv := wholeStore(al); sv != nil {
+					if _, isP := sv.(*ssa.Parameter); isP {
+						continue
+					}
+				}
+				if sv := capturedSingleStore(al); sv != nil {
+					if _, isP := sv.(*ssa.Parameter); isP {
+						continue
+					}
+				}
 				nm := al.Comment
 				if nm == "" || nm == "complit" || nm == "new" || nm == "varargs" || nm == "slicelit" || nm == "makeslice" {
 					nm = al.Name()
@@ -263,6 +274,11 @@ func (fc *FuncCtx) ap0(v ssa.Value) string {
 		// is named by the value stored into it
 		if sv := wholeStore(x); sv != nil {
 			if _, isConst := sv.(*ssa.Const); !isConst {
+				return fc.AP(sv)
+			}
+		}
+		if sv := capturedSingleStore(x); sv != nil {
+			if _, isP := sv.(*ssa.Parameter); isP {
 				return fc.AP(sv)
 			}
 		}
